@@ -1,5 +1,6 @@
 """C11 - span rounding/balancing/totals/compare (narrow): calendar units are refused without a reference on every path (REL-GUARD),
 window ends are measured from the reference (WINDOW), Span entry points cannot panic (E1), ranged values stay in range (E2)."""
+from ..rules_r5 import span_carry
 import os, re
 from .. import mir
 from ..term import Terms, show, walk, is_call, alts, match, V, C, TRY, ok_payloads
@@ -13,6 +14,7 @@ HELPERS = {"checked_add_invariant": 1, "checked_add_invariant_duration": 1, "tot
 
 def run(ctx, rep):
     prog = ctx.prog("Q")
+    span_carry(rep, prog)
     rep.notes.append("Does not decide conservation of r + span, correctness of nudge/bubble, total's floating-point accuracy or compare's order.")
     rel_guard(rep, prog)
     window(rep, prog)
